@@ -66,6 +66,7 @@ func init() {
 			{ID: "C01-R38", Title: "names are read from their storage (shared with C18-R25)", Floor: 3, Run: namesAreReadFromTheirStorage},
 			{ID: "C01-R39", Title: "the target of a compound assignment is read before the value is evaluated", Floor: 3, Run: theTargetOfACompoundAssignmentIsReadBeforeTheValueIsEvaluated},
 			{ID: "C01-R40", Title: "an entry has a key and a value of its own", Floor: 4, Run: anEntryHasAKeyAndAValueOfItsOwn},
+			{ID: "C01-R41", Title: "operators shared with Go keep Go's order of precedence", Floor: 1, Run: sharedOperatorsKeepGosOrder},
 		},
 	})
 }
